@@ -310,3 +310,20 @@ MUTATIONS += [
     ("forking-parent-keeps-socket", ["C17"], SRV, "            # parent\n            sock.close()\n            self.clients.discard(sock)", "            # parent\n            pass"),
     ("pool-drop-connection-keeps-entry", ["C17"], SRV, "            conn = self.fd_to_conn[fd]\n            del self.fd_to_conn[fd]", "            conn = self.fd_to_conn[fd]"),
 ]
+
+MUTATIONS += [
+    # ---- C02: proxies
+    ("get-methods-ignores-bases", ["C02"], L, "        mros = reversed(type(obj).__mro__)\n    for basecls in mros:", "        mros = [type(obj)]\n    for basecls in mros:"),
+    ("handle-buffiter-off-by-one", ["C02"], P, "        return tuple(itertools.islice(obj, count))", "        return tuple(itertools.islice(obj, max(count - 1, 1)))"),
+    ("buffiter-stops-on-short-chunk", ["C02"], HP, "        if not items:\n            break\n        for elem in items:\n            yield elem", "        for elem in items:\n            yield elem\n        if len(items) < count:\n            break"),
+    ("buffiter-drops-last-of-chunk", ["C02"], HP, "        for elem in items:\n            yield elem", "        for elem in items[:max(1, len(items) - (len(items) > 3))]:\n            yield elem"),
+    ("handle-cmp-op-on-instance", ["C02"], P, '            return self._access_attr(type(obj), op, (), "_rpyc_getattr", "allow_getattr", getattr)(obj, other)',
+     '            return self._access_attr(obj, op, (), "_rpyc_getattr", "allow_getattr", getattr)(other)'),
+    ("handle-setattr-swapped", ["C02"], P, '        return self._access_attr(obj, name, (value,), "_rpyc_setattr", "allow_setattr", setattr)', '        return self._access_attr(obj, name, (name,), "_rpyc_setattr", "allow_setattr", setattr)'),
+    ("netref-ne-forwards-eq", ["C02"], N, "        return syncreq(self, consts.HANDLE_CMP, other, '__ne__')", "        return syncreq(self, consts.HANDLE_CMP, other, '__eq__')"),
+    ("netref-delattr-as-setattr-none", ["C02"], N, "            syncreq(self, consts.HANDLE_DELATTR, name)", "            syncreq(self, consts.HANDLE_SETATTR, name, None)"),
+    ("handle-dir-sorted-truncated", ["C02"], P, "        return tuple(dir(obj))", "        return tuple(n for n in dir(obj) if not n.startswith('__r'))"),
+    ("handle-str-uses-repr", ["C02"], P, "    def _handle_str(self, obj):  # request handler\n        return str(obj)", "    def _handle_str(self, obj):  # request handler\n        return repr(obj)"),
+    ("handle-hash-constant", ["C02"], P, "        return hash(obj)", "        return hash(obj) & 0xFFFF"),
+    ("callattr-args-reversed", ["C02"], P, "        obj = self._handle_getattr(obj, name)\n        return self._handle_call(obj, args, kwargs)", "        obj = self._handle_getattr(obj, name)\n        return self._handle_call(obj, args[::-1] if len(args) == 2 and name == 'insert' else args, kwargs)"),
+]
